@@ -1912,13 +1912,17 @@ func (p *parser) scanCharSet(caseInsensitive, scanOnly bool) (*CharSet, error) {
 	}
 
 	if !scanOnly {
+		if caseInsensitive {
+			// Fold case while the members are still listed as written: a negated normal form
+			// lists the EXCLUDED characters instead, and folding those would exclude the case
+			// partner of a character the class names explicitly ((?i)[\x00-\x60b-\x{10FFFF}]
+			// holds 'A', so it matches 'a').
+			cc.addLowercase()
+			cc.addCaseEquivalences()
+		}
 		// the set is complete: now it is safe to normalize it
 		cc.negate = negate
 		cc.canonicalize()
-	}
-
-	if !scanOnly && caseInsensitive {
-		cc.addLowercase()
 	}
 
 	return cc, nil
